@@ -793,7 +793,13 @@ func (c *Converter) ConvertNotificationTypedValues(ctx context.Context, n *sdcpb
 				Update:    expUpds,
 				Delete:    n.GetDelete(),
 			}
-			return c.ConvertNotificationTypedValues(ctx, expNn)
+			// the other updates of the notification are kept: the expansion is added to the result
+			expConv, err := c.ConvertNotificationTypedValues(ctx, expNn)
+			if err != nil {
+				return nil, err
+			}
+			nn.Update = append(nn.Update, expConv.GetUpdate()...)
+			continue
 		}
 		if nup == nil { // filters out notification ending in non-presence containers
 			continue
